@@ -207,3 +207,54 @@ Check skip_serial_eq_skip_parallel :
     0 < de_depth e ->
     skip_entry_with fs max_filesize has_filter filter should_skip true ig e
     = par_skip fs max_filesize has_filter filter should_skip ig e.
+
+(* the source tie (DESIGN §4.2): the definitions of Gen/DecisionsLib.v are regenerated on every run from the
+   current text of crates/ignore/src/walk.rs (skip_filesize, Walk::skip_entry, and in Worker::generate_work the two
+   `let should_skip_.. = ..` decisions and the condition of `self.send(..)`); they equal the model definitions.
+   filter_of / filesize_verdict / is_some_N (Model/LibArgs.v) read the arguments off the model walker. *)
+From RG Require Gen.DecisionsLib Proofs.GenLibProofs.
+From RG Require Import Model.LibExpected Model.LibArgs.
+Theorem skip_filesize_generated_eq_model : forall (fs : fsys) (maxsz : N) (e : dent),
+  DecisionsLib.skip_filesize maxsz (de_len fs e) = Walk.skip_filesize fs maxsz e.
+Proof. exact GenLibProofs.skip_filesize_eq. Qed.
+Print Assumptions skip_filesize_generated_eq_model.
+
+(* the model walker has no stdout handle: self.skip = None (see the next two theorems for Some) *)
+Theorem skip_entry_generated_eq_model :
+  forall (fs : fsys) (max_filesize : option N) (has_filter : bool) (filter : dent -> bool)
+         (should_skip : igstack -> dent -> bool) (ig : igstack) (e : dent) (path_equals : bool),
+    DecisionsLib.skip_entry (de_depth e) (should_skip ig e) None path_equals (is_some_N max_filesize) (de_is_dir e)
+                            (filesize_verdict fs max_filesize e) (filter_of has_filter filter e)
+    = skip_entry_with fs max_filesize has_filter filter should_skip true ig e.
+Proof. exact GenLibProofs.skip_entry_eq. Qed.
+Print Assumptions skip_entry_generated_eq_model.
+
+Theorem skip_entry_generated_stdout_is_skipped : forall depth mfs isd sfv flt,
+  depth <> 0 -> DecisionsLib.skip_entry depth false (Some tt) true mfs isd sfv flt = true.
+Proof. exact GenLibProofs.skip_entry_stdout. Qed.
+Print Assumptions skip_entry_generated_stdout_is_skipped.
+Example skip_entry_generated_stdout_example : 1 <> 0. Proof. discriminate. Qed.
+
+Theorem skip_entry_generated_other_file_as_without_handle : forall depth ss mfs isd sfv flt,
+  DecisionsLib.skip_entry depth ss (Some tt) false mfs isd sfv flt
+  = DecisionsLib.skip_entry depth ss None false mfs isd sfv flt.
+Proof. exact GenLibProofs.skip_entry_not_stdout. Qed.
+Print Assumptions skip_entry_generated_other_file_as_without_handle.
+
+Theorem par_skip_generated_eq_model :
+  forall (fs : fsys) (max_filesize : option N) (has_filter : bool) (filter : dent -> bool)
+         (should_skip : igstack -> dent -> bool) (ig : igstack) (e : dent),
+    (if should_skip ig e then true else
+     negb (DecisionsLib.par_send
+             (DecisionsLib.par_should_skip_filesize (is_some_N max_filesize) (de_is_dir e)
+                                                    (filesize_verdict fs max_filesize e))
+             (DecisionsLib.par_should_skip_filtered (filter_of has_filter filter e))))
+    = par_skip fs max_filesize has_filter filter should_skip ig e.
+Proof. exact GenLibProofs.par_skip_eq. Qed.
+Print Assumptions par_skip_generated_eq_model.
+Check skip_entry_generated_eq_model :
+  forall (fs : fsys) (max_filesize : option N) (has_filter : bool) (filter : dent -> bool)
+         (should_skip : igstack -> dent -> bool) (ig : igstack) (e : dent) (path_equals : bool),
+    DecisionsLib.skip_entry (de_depth e) (should_skip ig e) None path_equals (is_some_N max_filesize) (de_is_dir e)
+                            (filesize_verdict fs max_filesize e) (filter_of has_filter filter e)
+    = skip_entry_with fs max_filesize has_filter filter should_skip true ig e.
